@@ -485,7 +485,7 @@ func genC04(e *emitter, r *rng, tier string) {
 			if c < 31 {
 				m := append([]byte(nil), b...)
 				m[0] = m[0]&0xE0 | byte(c+1+r.intn(31-c))
-				e.emit("inflated-"+name, opDec(name, m))
+				e.emit("inflated-"+name, sl(sy("inflated"), sy(name), sb(m)))
 			}
 		}
 	}
